@@ -51,6 +51,13 @@ def tc(s: bytes) -> int:
     return be(s, 0, len(s)) - (pow256(len(s)) if s[0] >= 128 else 0)
 
 
+def bool_den(s: bytes) -> bool:
+    """Value of BOOLEAN content octets.  X.690 8.2: one octet, FALSE = 00, TRUE = any other octet.  Contents of another length are
+    malformed and the standard gives them no meaning; the total extension chosen here reads everything that is not the single octet 00
+    as TRUE (it has to be *some* function of the content for the folds over optional BOOLEAN components)."""
+    return not (len(s) == 1 and s[0] == 0)
+
+
 def minimal_tc(s: bytes) -> bool:
     """X.690 8.3.2: the bits of the first octet and bit 8 of the second are not all ones and not all zero."""
     return len(s) == 1 or (len(s) >= 2 and not (s[0] == 0 and s[1] < 128) and not (s[0] == 255 and s[1] >= 128))
